@@ -8,6 +8,7 @@ func init() {
 	vfHarnesses["C20_transparency"] = vfhC20Transparency
 	vfHarnesses["C20_zero_values"] = vfhC20ZeroValues
 	vfHarnesses["C20_measure_transparency"] = vfhC20MeasureTransparency
+	vfHarnesses["C14_collection_measures"] = vfhC20MeasureTransparency
 }
 
 const vfNumEmpties = 13
@@ -181,13 +182,17 @@ func vfhC20MeasureTransparency() {
 	}
 	plain := NewGeometryCollection([]Geometry{m1, m2}).AsGeometry()
 	var with Geometry
-	switch vfInt("pos", 0, 2) {
+	switch vfInt("pos", 0, 4) {
 	case 0:
 		with = NewGeometryCollection([]Geometry{e, m1, m2}).AsGeometry()
 	case 1:
 		with = NewGeometryCollection([]Geometry{m1, e, m2}).AsGeometry()
-	default:
+	case 2:
 		with = NewGeometryCollection([]Geometry{m1, m2, e}).AsGeometry()
+	case 3: // the empty member sits next to m1 inside a nested collection
+		with = NewGeometryCollection([]Geometry{NewGeometryCollection([]Geometry{m1, e}).AsGeometry(), m2}).AsGeometry()
+	default:
+		with = NewGeometryCollection([]Geometry{m1, NewGeometryCollection([]Geometry{e, m2}).AsGeometry()}).AsGeometry()
 	}
 	vfAssert(with.Area() == plain.Area(), "Area unchanged by an empty member")
 	vfAssert(with.Length() == plain.Length(), "Length unchanged by an empty member")
@@ -196,5 +201,7 @@ func vfhC20MeasureTransparency() {
 	c2, ok2 := plain.Centroid().XY()
 	vfAssert(ok1 && ok2, "centroids are non-empty")
 	vfAssert(vfAnd(c1.X == c2.X, c1.Y == c2.Y), "Centroid unchanged by an empty member")
+	vfAssert(with.PointOnSurface().IsEmpty() == plain.PointOnSurface().IsEmpty(), "PointOnSurface emptiness unchanged")
+	vfAssert(with.Dimension() >= plain.Dimension(), "Dimension() may count the empty member (documented), never less")
 	vfReach("end")
 }
